@@ -355,7 +355,8 @@ def check_extract(ctx: Ctx, stream, bam, fasta, specs, rgs, loc, mlocus, o: Opts
     # ---- property oracle (independent of the model)
     want_rows, used = oracle_rows(specs, rgs, loc, o)
     conflict = oracle_ref_conflict(used, loc, md_ref) if not (strip_md or pad) else False
-    other_error = strip_md or pad or any(s.rg is None or s.quals is None for s in specs
+    known_ids = {g["ID"] for g in rgs}
+    other_error = strip_md or pad or any(s.rg is None or s.rg not in known_ids or s.quals is None for s in specs
                                          if overlaps(s, loc.contig, loc.start, loc.stop) and passes_property(s, o))
     if conflict:
         if impl_rows is not None:
@@ -698,6 +699,10 @@ def hand_case(r, pad=False):
             flag |= r.choice([0x1 | 0x2 | 0x40, 0x1 | 0x2 | 0x80, 0x1 | 0x40, 0x10])
         mapq = r.choice([max(0, thr - 1), thr, thr + 1, thr, 60, 0]) if r.random() < 0.6 else 60
         cigar = "".join(f"{n}{op}" for n, op in ops)
+        if len(seq) < 2:
+            # one-base reads corrupt pysam's `AlignedSegment.qual` (and the interpreter's cached bytes objects); they
+            # have their own stream, run in a subprocess
+            continue
         spec = S.ReadSpec(r.choice(names), contig, pos, cigar, "".join(seq), quals, flag, min(mapq, 254),
                           r.choice(rgs)["ID"])
         if r.random() < 0.05:
@@ -746,6 +751,20 @@ def strip_md_bam(src, dst):
     return dst
 
 
+def drop_rg_bam(src, dst, rgid):
+    """same records, but the @RG line `rgid` is removed from the header (its reads keep their RG tag)"""
+    import pysam
+
+    with pysam.AlignmentFile(src) as f:
+        hd = f.header.to_dict()
+        hd["RG"] = [g for g in hd.get("RG", []) if g["ID"] != rgid]
+        with pysam.AlignmentFile(dst, "wb", header=hd) as out:
+            for a in f.fetch(until_eof=True):
+                out.write(pysam.AlignedSegment.from_dict(a.to_dict(), out.header))
+    pysam.index(dst)
+    return dst
+
+
 def pysam_refbases(bam, n_expected):
     """third component of get_aligned_pairs(with_seq=True) per record, in file order (padding stream only)"""
     import pysam
@@ -760,6 +779,56 @@ def pysam_refbases(bam, n_expected):
     if len(out) != n_expected:
         raise C.Infra("record count changed on read-back")
     return out
+
+
+ONE_BASE_SCRIPT = r"""
+import json, sys
+sys.path.insert(0, sys.argv[1])
+from harness import common as C
+C.setup_numba_cache()
+from harness import synth as S
+import pysam
+from mchap.io.bam import extract_read_variants
+from mchap.io.loci import Locus, SNP
+work, q = sys.argv[2], int(sys.argv[3])
+contigs = {"c1": "ACGTACGTACGTACGTACGT"}
+reads = [S.ReadSpec("one", "c1", 5, "1M", "C", [q], 0, 60, "rg"), S.ReadSpec("two", "c1", 4, "3M", "ACG", [q, q, q], 0, 60, "rg")]
+bam = S.write_bam(work + "/one.bam", contigs, reads, [{"ID": "rg", "SM": "s"}])
+locus = Locus("c1", 3, 8, "x", "TACGT", (SNP("c1", 5, 6, ".", ("C", "T")),))
+out = []
+for rep in range(3):
+    try:
+        with pysam.AlignmentFile(bam) as f:
+            d = extract_read_variants(locus, f, read_dicts=True)
+        out.append({k: ["".join(v[0]), [int(x) for x in v[1]]] for k, v in d["s"].items()})
+    except Exception as e:
+        out.append("error:" + type(e).__name__)
+print(json.dumps(out))
+"""
+
+
+def one_base_stream(chk, work, r, n):
+    """records whose SEQ has a single base, in a subprocess (pysam's deprecated `.qual` accessor mutates a cached bytes object)"""
+    import json
+    import subprocess
+    import sys
+
+    for i in range(n):
+        q = r.randint(2, 41)
+        res = subprocess.run([sys.executable, "-W", "ignore", "-c", ONE_BASE_SCRIPT, str(C.VERIF), work, str(q)],
+                             env=C.subprocess_env(), capture_output=True, text=True, timeout=600)
+        chk.count("one-base-stream")
+        case = {"stream": "one-base", "phred": q, "reads": [("one", "c1", 5, "1M", "C", [q]), ("two", "c1", 4, "3M", "ACG", [q, q, q])],
+                "locus": {"contig": "c1", "start": 3, "stop": 8, "positions": [5], "alleles": ["CT"]}, "calls": 3}
+        if res.returncode != 0:
+            raise C.Infra(f"one-base subprocess failed: {res.stderr[-400:]}")
+        got = json.loads(res.stdout.strip().split("\n")[-1])
+        want = {"one": ["C", [q]], "two": ["C", [q]]}
+        chk.case(["one-base", q], True)
+        if any(g != want for g in got):
+            chk.violation("a read whose SEQ has one base gets a wrong phred score on the second extraction in a process and raises "
+                          "UnicodeDecodeError later (pysam's deprecated AlignedSegment.qual mutates CPython's cached one-byte object)",
+                          {**case, "impl": got, "expected": [want] * 3}, "C06/pysam.AlignedSegment.qual/one-base-read")
 
 
 # --------------------------------------------------------------------------------------
@@ -788,11 +857,11 @@ def run(tier, replay=None):
     ctx = Ctx(chk, drv, tier)
     r = C.rng(PROP)
     work = tempfile.mkdtemp(prefix="c06-", dir=os.environ.get("TMPDIR", "/tmp"))
-    n_synth = {"warm": 1, "quick": 10, "thorough": 100}[tier]
-    n_hand = {"warm": 3, "quick": 160, "thorough": 1600}[tier]
-    n_err = {"warm": 2, "quick": 30, "thorough": 300}[tier]
+    n_synth = {"warm": 1, "quick": 36, "thorough": 240}[tier]
+    n_hand = {"warm": 3, "quick": 450, "thorough": 3000}[tier]
+    n_err = {"warm": 2, "quick": 48, "thorough": 480}[tier]
     n_pad = {"warm": 1, "quick": 12, "thorough": 120}[tier]
-    n_cli = {"warm": 1, "quick": 3, "thorough": 20}[tier]
+    n_cli = {"warm": 1, "quick": 4, "thorough": 24}[tier]
     try:
         # ------------------------------------------------------------ synthetic datasets
         feats_all = sorted(S.ALL_FEATURES)
@@ -939,12 +1008,10 @@ def run(tier, replay=None):
 
         # ------------------------------------------------------------ error streams
         for i in range(n_err):
-            kind = ["no-rg", "no-qual", "no-md", "bam-ref", "bam-ref", "vcf-ref"][i % 6]
+            kind = ["no-rg", "no-qual", "no-md", "bam-ref", "bam-ref", "unknown-rg"][i % 6]
             chk.count(f"error-stream:{kind}")
             d = os.path.join(work, "err")
             os.makedirs(d, exist_ok=True)
-            if kind == "vcf-ref":
-                continue    # handled below on datasets
             contigs, loc, rgs, specs, thr = hand_case(r)
             md_ref = contigs
             strip = False
@@ -964,6 +1031,10 @@ def run(tier, replay=None):
             if kind == "no-md":
                 bam = strip_md_bam(bam, os.path.join(d, "e2.bam"))
                 strip = True
+            if kind == "unknown-rg" and len(rgs) >= 2:
+                gone = r.choice(rgs)["ID"]
+                bam = drop_rg_bam(bam, os.path.join(d, "e3.bam"), gone)
+                rgs = [g for g in rgs if g["ID"] != gone]
             ml = make_mlocus(loc, contigs)
             for o in option_grid(r, rgs, thr, 5):
                 check_extract(ctx, kind, bam, None, specs, rgs, loc, ml, o, md_ref, strip_md=strip)
@@ -982,7 +1053,7 @@ def run(tier, replay=None):
                 bad_locus = l.name
                 how = r.choice(["other", "lower"])
                 old = l.snv_alleles[j][0]
-                new = old.lower() if how == "lower" else r.choice([b for b in S.BASES if b != old and b not in l.snv_alleles[j]])
+                new = old.lower() if how == "lower" else r.choice([b for b in S.BASES if b != old and b not in l.snv_alleles[j]] or [b for b in S.BASES if b != old])
                 loci2 = [S.Locus(x.name, x.contig, x.start, x.stop, list(x.snv_positions), [list(a) for a in x.snv_alleles])
                          for x in ds.loci]
                 for x in loci2:
@@ -1061,6 +1132,9 @@ def run(tier, replay=None):
                               "C06/assemble/bam-ref-mismatch-not-reported")
             shutil.rmtree(d, ignore_errors=True)
 
+        # ------------------------------------------------------------ one-base reads (subprocess)
+        one_base_stream(chk, work, r, {"warm": 1, "quick": 2, "thorough": 6}[tier])
+
         # ------------------------------------------------------------ padding CIGARs (pysam walks P like I)
         for i in range(n_pad):
             contigs, loc, rgs, specs, thr = hand_case(r, pad=True)
@@ -1104,4 +1178,9 @@ def run(tier, replay=None):
         ctx.flush()
     finally:
         shutil.rmtree(work, ignore_errors=True)
+    sigs = {}
+    for v in chk.violations:
+        sigs[v["signature"]] = sigs.get(v["signature"], 0) + 1
+    for sig, n in sorted(sigs.items()):
+        print(f"[C06] deviation signature={sig} cases={n}")
     return chk.finish()
